@@ -148,38 +148,62 @@ func runLaneB(f *commonFlags, scratch string) (map[string]any, []*Violation, int
 		cases, _ = strconv.ParseInt(v, 10, 64)
 	}
 	type res struct {
-		code int
-		out  string
-		n    int64
+		code  int
+		out   string
+		n     int64
+		procs int
 	}
 	rs := make([]res, f.workers)
 	var wg sync.WaitGroup
 	env := append(os.Environ(), "GORACE=halt_on_error=1 exitcode=66", "GOMAXPROCS=4")
 	t0 := time.Now()
+	// Each lane-B process handles a short slice of cases and exits: package-level state of the
+	// uninstrumented build cannot be reset, so "first use in this process" windows (lazy
+	// tables, cold caches) are re-opened by starting over.
+	const slice = 8
+	deadline := time.Now().Add(budget)
 	for i := 0; i < f.workers; i++ {
 		wg.Add(1)
 		go func(i int) {
 			defer wg.Done()
-			cmd := exec.Command(f.laneB, "laneb", "-seed", fmt.Sprint(f.seed), "-from", fmt.Sprint(i), "-to", fmt.Sprint(cases), "-step", fmt.Sprint(f.workers), "-budget", budget.String())
-			var so, se bytes.Buffer
-			cmd.Stdout, cmd.Stderr = &so, &se
-			cmd.Env = env
-			err := cmd.Run()
-			code := 0
-			if ee, ok := err.(*exec.ExitError); ok {
-				code = ee.ExitCode()
-			} else if err != nil {
-				code = 2
+			rs[i].code = 0
+			for from := int64(i) * slice; from < cases && time.Now().Before(deadline); from += int64(f.workers) * slice {
+				to := from + slice
+				if to > cases {
+					to = cases
+				}
+				cmd := exec.Command(f.laneB, "laneb", "-seed", fmt.Sprint(f.seed), "-from", fmt.Sprint(from), "-to", fmt.Sprint(to), "-step", "1", "-budget", time.Until(deadline).String())
+				var so, se bytes.Buffer
+				cmd.Stdout, cmd.Stderr = &so, &se
+				cmd.Env = env
+				err := cmd.Run()
+				code := 0
+				if ee, ok := err.(*exec.ExitError); ok {
+					code = ee.ExitCode()
+				} else if err != nil {
+					code = 2
+				}
+				var n struct{ Cases int64 }
+				json.Unmarshal(so.Bytes(), &n)
+				rs[i].n += n.Cases
+				rs[i].procs++
+				if code != 0 {
+					rs[i].code, rs[i].out = code, se.String()
+					return
+				}
 			}
-			var n struct{ Cases int64 }
-			json.Unmarshal(so.Bytes(), &n)
-			rs[i] = res{code, se.String(), n.Cases}
 		}(i)
 	}
 	wg.Wait()
 	info := map[string]any{"note": "auxiliary lane: real goroutines, uninstrumented build, Go race detector; runtime monitoring, not simulation; not the deciding step",
 		"goroutines_per_call_set": "2..6", "rounds_per_call_set": 3, "wall_s": time.Since(t0).Seconds()}
 	var total int64
+	procs := 0
+	for _, r := range rs {
+		procs += r.procs
+	}
+	info["processes"] = procs
+	info["call_sets_per_process"] = 8
 	var viol []*Violation
 	reports := 0
 	for i, r := range rs {
